@@ -5,6 +5,7 @@ from engine.driver import Result, viol
 
 ID = "C08"
 LEVEL = "exploration"
+HANG_IS_VIOLATION = True     # every generated case terminates under the model: no reply (twice, then 3x confirmation) is a violation
 ENGINE = "E-hyp"
 TECHNIQUE = "model-based (stateful) property testing: operation histories over a heap of aliased arrays/hashmaps against a Python model that uses real object references; acyclicity observed structurally after every step"
 RULE = ("cases = histories of <=25 operations over 4 array variables and 2 hashmap variables: new, alias, in-place ops (set, pushBack, "
